@@ -129,7 +129,7 @@ def run():
     audit = WriteAudit()
     with audit:
         # ---- (a) generated documents
-        n_docs = 9000 if thorough else 1500
+        n_docs = 30000 if thorough else 1500
         for i in range(n_docs):
             enc = F.ENCODINGS[i % len(F.ENCODINGS)]
             v, pad = [1, 2][(i // 3) % 2], [1, 2, 4][i % 3]
